@@ -84,6 +84,16 @@ CHECKS = {
     technique="TLA+ law table (TraceKernel.tla) evaluated by TLC in fixed point on recorded evaluation grids of the kernel CDFs: CDF laws, Phi-table marginals, exact anchors at rational-asin correlations in every algorithm branch, reflection identity, cross-algorithm seams at every branch threshold, high-correlation limit, exact rational box CDF",
     text="For 17..21 correlations (five with asin(rho)/(2 pi) rational, one in each quadrature regime and one above 0.925; values on both sides of 0.3, 0.75, 0.925; up to 0.999) and their negatives, means (0,0)/(3,-2) and variances from 1e-4 to 1e4, the kernel is evaluated on a 17x17 lattice reaching 10 standard deviations; TLC checks range, monotonicity in each argument, non-negative rectangle mass, tails, both marginals against the Phi table (1e-7), the value at the mean, the reflection identity, agreement of the two algorithms across every branch threshold (bound verified by squaring), the |rho|->1 limit, zero-covariance forms (gaussian, sbvn_cdf, norm_cdf) against the Phi table to 1e-12 and the uniform kernel against the exact box CDF.",
     note="NOT decided: agreement with an independent bivariate normal reference at arbitrary interior (h,k,rho) to 1e-7 -- TLA+ cannot integrate a 2-D density; a change that keeps marginals, anchors, reflection, seams and limits and is wrong elsewhere by < 1e-3 would be missed. No state space: exploration level. The |rho|>=0.925 defect is repaired in /repo and recorded as fixed."),
+ "C04": dict(
+    cat="exploration", ref="DESIGN.md 5/C04",
+    technique="TLA+ specification of a persistence image pixel (sum over points of weight * kernel mass of the pixel square, birth-persistence axes, skew conversion) evaluated by TLC in fixed point on recorded transforms: rational box overlap for the uniform kernel, Phi-table differences for isotropic and axis-aligned Gaussians on the 1/8-sd lattice",
+    text="For seeded configurations (grids of 2..5 x 2..5 pixels, pixel sizes 2 and 4 ticks, origins of either sign; uniform boxes, isotropic Gaussians in scalar and s*I form (the fast path), axis-aligned Gaussians (the general path); persistence^n, linear_ramp and user-callable weights; points inside, on pixel borders and outside the imaged region; repeated pairs; 5 exact embeddings from 2^-50 to 2^30) every pixel of every recorded image is recomputed by TLC from the diagram and must agree to 1e-12 (1e-9 relative); the image must have the configured shape and (birth, persistence) axis order.",
+    note="Correlated Gaussians are not decided pixel by pixel (no 2-D integral in TLA+): they enter through C11's relations and C13's kernel laws only. No state space: exploration level. Phi from the generated Tables.tla."),
+ "C11": dict(
+    cat="exploration", ref="DESIGN.md 5/C11",
+    technique="TLA+ relation table (TraceImage.tla): the specification discovers, from the diagrams, which recorded images of one imager configuration must be equal / sum / vanish, and TLC checks every such relation pixel by pixel in fixed point",
+    text="Per configuration (all four kernel families incl. correlated Gaussians, all weight families) the images of X, Y, Z, X+Y, a permutation, X plus zero-persistence points, the empty diagram, X with a repeated pair, and X pre-converted to birth-persistence form are recorded alone, inside collections and through joblib workers (n_jobs 1, 2, 4), always handing over the same array objects; TLC requires: equal multisets of non-zero-weight points => equal images (order, single vs collection, worker count, skew form, repeated calls), union => sum, empty / all-zero-weight => all zeros of the configured shape, non-negative weights => no negative pixel and total <= total weight.",
+    note="Tolerance 1e-12 absolute + 1e-9 relative in tick units. joblib scheduling is exercised, not enumerated: there is no shared mutable state between workers to model. Exploration level."),
 }
 
 NOT_APPLICABLE_REASON = "check under construction in this round; see DESIGN.md section 5"
